@@ -32,4 +32,4 @@ Deliverables in {wt}-out/ :
   demo.sh      - as described (and its input files)
   notes.md     - 5-15 lines: what the change does, why the existing tests do not notice, exactly what is needed for the violation to manifest, and the commands you ran with their observed results (tests pass with patch; demo fails with patch; demo passes without)
 
-When done, leave the worktree with your patch REVERTED (clean `git status`) but keep the target directory. Reply with a short summary (what you changed, what manifests it, confirmation of the three runs).""")
+Never use `git stash` (the stash is shared by every worktree of this repository and other agents are working in theirs at the same time): flip your change with `git diff > patch.diff`, `git apply -R patch.diff` and `git apply patch.diff`. When done, leave the worktree with your patch REVERTED (clean `git status`) but keep the target directory. Reply with a short summary (what you changed, what manifests it, confirmation of the three runs).""")
